@@ -10,7 +10,7 @@ def life(fn, tus, funcs, **kw):
 
 
 GROUPS = [
-    life("errmem", ["format_mpq.c", "allocrus.c"], ["ILLerror_memory_create", "ILLadd_error_to_memory", "ILLformat_error_create", "ILLformat_error_delete", "ILLerror_memory_free"]),
+    life("errmem", ["format_mpq.c", "allocrus.c", "util.c"], ["ILLerror_memory_create", "ILLadd_error_to_memory", "ILLformat_error_create", "ILLformat_error_delete", "ILLerror_memory_free"]),
     life("cache", ["lpdata_mpq.c", "allocrus.c"], ["ILLlp_cache_init", "ILLlp_cache_alloc", "ILLlp_cache_free"]),
     life("basis", ["lpdata_mpq.c", "qsopt_mpq.c", "allocrus.c"], ["ILLlp_basis_alloc", "ILLlp_basis_free", "QSget_basis", "QSfree_basis", "illbasis_to_qsbasis"]),
     life("reload", ["qsopt_mpq.c", "lpdata_mpq.c", "allocrus.c"], ["QSread_and_load_basis"],
